@@ -109,7 +109,7 @@ func c28Reset(signing, canSign, asleep bool) string {
 	}
 	dir, err := os.MkdirTemp("", "verif-c28-")
 	must(err)
-	w := &c28World{dir: dir, labels: map[string]string{}, now: time.Now().Unix()}
+	w := &c28World{dir: dir, labels: map[string]string{}, now: time.Now().Unix(), canSign: canSign}
 	w.keys[0] = crypto.SigningKeypairFromSeed(c28Seed(0x11))
 	w.keys[1] = crypto.SigningKeypairFromSeed(c28Seed(0x22))
 	cfg := config.Default()
@@ -367,6 +367,9 @@ func c28RunOp(f []string) string {
 		if f[1] == "s" {
 			_ = w.a.TriggerSleep()
 		} else {
+			if !w.canSign {
+				return "bad-op trig-w-needs-reset-2" // TriggerWake would flood for 2 h with this agent's poll interval
+			}
 			_ = w.a.TriggerWake()
 		}
 		return c28Observe(w)
@@ -423,7 +426,7 @@ func c28Gen(w *bufio.Writer, seed int64, tier string) {
 				asleep = true
 				continue
 			}
-			if tier == "thorough" && r.chance(1) { // TriggerWake floods for 5 s
+			if tier == "thorough" && mode == 2 && r.chance(6) { // TriggerWake floods for 5 s (only agents configured for it, see c28Reset)
 				fmt.Fprintf(w, "trig w\n")
 				asleep = false
 				continue
